@@ -584,16 +584,22 @@ def _patch_digraph(mod):
 
     def sccs(self, trivial=False):
         comps = []
+        complete = False
         try:
             for c in orig(self, trivial):
                 comps.append(list(c))
                 yield c
+            complete = True
         finally:
-            count('eval.sccs')
-            try:
-                _check_sccs(self, comps, trivial)
-            except Exception as e:
-                emit('monitor.error', where='sccs', err=repr(e))
+            if not complete:
+                # an enumeration the caller abandoned: a prefix says nothing
+                count('eval.sccs.abandoned')
+            else:
+                count('eval.sccs')
+                try:
+                    _check_sccs(self, comps, trivial)
+                except Exception as e:
+                    emit('monitor.error', where='sccs', err=repr(e))
     cls.sccs = sccs
 
 
